@@ -378,8 +378,9 @@ func ruleD5(c *an.Ctx) {
 					}
 					indexed++
 					// the same local through a captured cell, or the same field path through a captured receiver
-					if same(base) || (an.StablePath(base) == an.StablePath(sorted) && !strings.Contains(an.StablePath(base), "_")) {
-						own = true
+					norm := func(v ssa.Value) string { return strings.TrimPrefix(an.StablePath(v), "local:") }
+					if same(base) || (norm(base) == norm(sorted) && !strings.Contains(norm(base), "_")) {
+						own = true // (a captured local is "local:x" outside and "x" inside the closure)
 					}
 				})
 				if indexed == 0 {
